@@ -12,7 +12,7 @@ Theorem C02_validator_sound : forall n G morphs,
   let deps := flat_map snd morphs in
   (forall p, Cl P mul anti (fun g => In g G) p <-> Cl P mul anti (fun g => In g verts) p) /\
   (forall d, In d deps -> Cl P mul anti (fun g => In g verts) d) /\
-  length (dedup G) = (length verts + length (dedup deps))%nat /\
+  (length verts + length (dedup deps) <= length (dedup G) <= length verts + length deps)%nat /\
   NoDup verts /\
   length morphs = length (gen_components G) /\
   (forall m, In m morphs -> star_spec (fst m)).
